@@ -80,6 +80,14 @@ def gen_cases(tier, seed):
                 cases.append(asmgen.asm_case(0, [(1, first), (1, f)])); tags.append("table-size")
                 cases.append(asmgen.asm_case(0, [(1, first), (1, f), (1, f)])); tags.append("table-size")
             cases.append(asmgen.asm_case(0, [(1, first), (1, "a halt\n"), (1, first), (1, f"ld r0 {last}\nhalt\n")])); tags.append("table-size")
+    # LONG histories: a source that records a label, then exactly N other assemblies (each followed by a reset), then a source that
+    # only REFERENCES that label (a fresh assembly rejects it) or defines it again (a fresh assembly accepts it) - for N around
+    # 255 / 256 / 257 and 511 / 512 [65,535 / 65,536]: whatever counter or generation stamp a reset might keep, it may not
+    # come round to the one the label was recorded under
+    for n in ([254, 255, 256, 257, 511, 512] if tier == "quick" else [254, 255, 256, 257, 511, 512, 1023, 1024, 65535, 65536]):
+        for last in ("ld r0 ghost\nhalt\n", "br ghost\n", "ghost halt\nbr ghost\n"):
+            seq = [(1, "ghost .fill #7\nhalt\n")] + [(1, "halt\n")] * n + [(1, last)]
+            cases.append(asmgen.asm_case(0, seq)); tags.append("long-history")
     return cases, tags, pool
 
 
@@ -98,7 +106,7 @@ def correspondence(ctx, violations, known_hits):
             alone[(dc[0], dc[1][0][1])] = a[0]
     direct = 0
     for c, t, a in zip(cases, tags, ri):
-        if t in ("pair-reset", "seq-reset", "repeat", "table-size") and a:
+        if t in ("pair-reset", "seq-reset", "repeat", "table-size", "long-history") and a:
             ft, srcs = asmcommon.decode_case(c)[:2]
             for k, (reset, text) in enumerate(srcs):
                 if (ft, text) in alone and k < len(a):
